@@ -51,6 +51,12 @@ SIZES = {"quick": dict(num=60, depth=8, onein=40, simt=60, mct=200, maxbeh=1500,
 
 def run(prop, tier, seed):
     out = common.Outcome(prop, tier, seed)
+    return stage(out, prop, tier, seed)
+
+
+def stage(out, prop, tier, seed):
+    """The Gov pipeline. For C17 every finding counts; when called for C02 (token conservation across
+    DAO transfers and burns) only findings about balances and supply do."""
     size = SIZES[tier]
     common.build_harness(["posdrv"])
     out.assumptions += ["parameter values are compared through per-key value alphabets (index of the stored raw JSON among the values the driver can write); "
@@ -102,6 +108,9 @@ def run(prop, tier, seed):
             lineno, div, bad = dv["line"], dv["div"], dv["bad"]
             ln = lines[lineno - 1]
             sigs = ["%s" % b for b in sorted(bad)] + ["diverge:%s@%s" % (f, ln["act"].get("kind", ln["act"]["a"])) for f in sorted(div)]
+            if prop == "C02":
+                sigs = [x.replace("C17.SupplyIsSum", "C02.SupplyIsSum") for x in sigs
+                        if x == "C17.SupplyIsSum" or x == "C17.DaoOnlyByOwner" or x.startswith("diverge:bal@") or x.startswith("diverge:supply@")]
             for sig in sigs:
                 key = (sig, ln["act"].get("kind", ""), ln["res"]["class"])
                 if key in seen:
